@@ -99,7 +99,16 @@ def _synth_case(task):
     dense = {k: (complex(rng.randn(), rng.randn()) if k in ms else 0.0)
              for k in allm}
     sets.append(dense)
-    for a in sets:
+    # synthesis and analysis are linear: the same sets at very small and very
+    # large amplitude (with a phase), and one set with a wide dynamic range
+    wide = {k: (complex(rng.randn(), rng.randn()) * 10.0 ** (-3 * (i % 5))
+                if k in ms else 0.0) for i, k in enumerate(allm)}
+    sets.append(wide)
+    scaled = []
+    for amp in (1e-10 * (0.6 + 0.8j), 1e8):
+        for a in sets:
+            scaled.append((amp, {k: v * amp for k, v in a.items()}))
+    for amp, a in [(1.0, a) for a in sets] + scaled:
         a0 = dict(a)
         f = maths.sYlm_reconstruct(s, lmax, a, T, P)
         c = maths.sYlm_coefficients(s, lmax, f, T, P, W, dphi)
@@ -108,7 +117,7 @@ def _synth_case(task):
             bad.append(('argument-modified',))
         for k in allm:
             want = a0[k] if k in ms else 0.0
-            if abs(c[k] - want) > 1e-11:
+            if not abs(c[k] - want) <= 1e-11 * abs(amp):
                 bad.append(('coefficient', k, complex(c[k]), want))
                 break
         if set(c) != set(allm):
@@ -219,6 +228,29 @@ def psi4_case(task):
                 want = f(R) if (ll, mm) == (l, m) else 0.0
                 worst = max(worst, abs(v - want) / f(R))
         errs.append(worst)
+        if N == Ns[0]:
+            # lmax, center, extract_radii are documented as 'also
+            # attribute': assigned after construction they give the same
+            # decomposition
+            with quiet():
+                rel2 = AurelCore(fd, verbose=False)
+                rel2.lmax, rel2.center, rel2.extract_radii = 4, centre, radii
+                rel2.data['Weyl_Psi4r'] = np.real(psi).copy()
+                rel2.data['Weyl_Psi4i'] = np.imag(psi).copy()
+                rel2.freeze_data()
+                try:
+                    out2 = rel2['Psi4_lm']
+                    same = (sorted(out2) == sorted(out) and all(
+                        out2[R].keys() == out[R].keys() and all(
+                            abs(out2[R][k] - out[R][k]) <= 1e-12 * f(R)
+                            for k in out[R]) for R in out))
+                except Exception as ex:      # noqa: BLE001
+                    same = False
+            if not same:
+                return {'task': [l, m, list(centre), list(Ns)],
+                        'errs': [float('inf')] * len(Ns),
+                        'raised': "options assigned as attributes after "
+                                  "construction give a different Psi4_lm"}
     return {'task': [l, m, list(centre), list(Ns)], 'errs': errs}
 
 
